@@ -124,6 +124,78 @@ def switchStd (t : SwitchTbl W) : Soft W :=
       | some q => .send s1 q f (fun s' => .done s')
       | none => floodTo f p (List.range s1.ifaces.length) s1 }
 
+/-! ### a software SET, and firmware, confined to the software state -/
+
+/-- one installed service / application: the port it owns and what its `receive` does.  `confined`: a script over the
+software state — it can only write `sw` (every class a router, firewall, switch or host carries as shipped, except the
+Terminal: `Gen.FilterSoft.receiveReach`); `free`: anything at all (user-installed software, or software that reaches the
+request dispatcher and through it `network_interface/<n>/enable`) -/
+inductive SwItem (W : Type) where
+  | confined (port : Nat) (recv : Node W → Nat → Frame → SwScript W)
+  | free (port : Nat) (recv : Node W → Nat → Frame → Script W)
+
+def SwItem.port : SwItem W → Nat
+  | .confined p _ => p
+  | .free p _ => p
+
+def SwItem.isConfined : SwItem W → Bool
+  | .confined _ _ => true
+  | .free _ _ => false
+
+def SwItem.run (it : SwItem W) (s : Node W) (p : Nat) (f : Frame) : Script W :=
+  match it with
+  | .confined _ r => liftSw s (r s p f)
+  | .free _ r => r s p f
+
+/-- the decidable condition on a software set: every item is confined -/
+def setConfined (items : List (SwItem W)) : Bool := items.all (·.isConfined)
+
+/-- `session_manager.receive_frame` → `software_manager.receive_payload_from_session_manager`: the receiver is the software
+that owns the destination port (ICMP: port 0) -/
+def dispatchSession (items : List (SwItem W)) (s : Node W) (p : Nat) (f : Frame) : Script W :=
+  match items.find? (fun it => it.port == (match f.pkt.ports with | some (_, d) => d | none => 0)) with
+  | some it => it.run s p f
+  | none => .done s
+
+/-- what a router / firewall / switch does above the filtering layer besides its installed software: ARP learning,
+`process_frame` / `route_frame` with the ARP resolution they trigger, the DMZ look-ups, MAC-table forwarding — all of it
+reads the node and writes the software state only (`Gen.FilterSoft.enableSitesOnFramePath = []`) -/
+structure Firmware (W : Type) where
+  capture : Node W → Nat → Frame → W
+  learn : Node W → Nat → Frame → W
+  hostAccept : Node W → Frame → Bool
+  toSession : Node W → Frame → Bool
+  process : Node W → Nat → Frame → SwScript W
+  dmzLookup : Node W → Nat → Frame → SwScript W
+  dmzOutNic : Node W → Frame → Option Nat
+  switchFwd : Node W → Nat → Frame → SwScript W
+
+/-- the software layer of an element with firmware `fw` and installed software `items` -/
+def softOf (fw : Firmware W) (items : List (SwItem W)) : Soft W :=
+  { capture := fw.capture, learn := fw.learn, hostAccept := fw.hostAccept, toSession := fw.toSession,
+    session := dispatchSession items,
+    process := fun s p f => liftSw s (fw.process s p f),
+    dmzLookup := fun s p f => liftSw s (fw.dmzLookup s p f),
+    dmzOutNic := fw.dmzOutNic,
+    switchFwd := fun s p f => liftSw s (fw.switchFwd s p f) }
+
+/-- software every node kind carries as shipped (`SYSTEM_SOFTWARE` + `_install_system_software`), by class name -/
+def shippedSoftware : List (String × List String) :=
+  [("router", ["NMAP", "RouterARP", "RouterICMP", "Terminal", "UserManager", "UserSessionManager"]),
+   ("firewall", ["NMAP", "RouterARP", "RouterICMP", "Terminal", "UserManager", "UserSessionManager"]),
+   ("switch", []),
+   ("host", ["DNSClient", "HostARP", "ICMP", "NMAP", "NTPClient", "Terminal", "UserManager", "UserSessionManager", "WebBrowser"])]
+
+/-- a class is confined when the code run by its `receive` reaches neither an enable site nor the request dispatcher -/
+def confinedClass (tbl : List (String × Bool × Bool)) (c : String) : Bool :=
+  match tbl.find? (fun x => x.1 == c) with
+  | some x => !x.2.1 && !x.2.2
+  | none => false
+
+/-- `HostARP._process_arp_request` -/
+def hostArpRequestOrder : List String :=
+  ["guard:target-is-not-arrival-interface-return", "reply=generate_reply(arrival-interface.mac)", "send_arp_reply(reply)"]
+
 /-! ### labelled topologies and the network-level certificate -/
 
 inductive NKind | host | switch | other
